@@ -15,6 +15,8 @@ import numpy as np
 from .. import cards, yrun
 from ..engine import digest
 
+HISTORY_SWEEP = True
+HISTORY_SWEEP_PER_PROCESS = 10
 ID = "C14"
 X1, X2, Q1, Q2 = 0.3, 0.5, 0.5, 7.0
 POINTS = {
